@@ -391,10 +391,14 @@ class Layout(object):
                 break
             os.rmdir(T)
         self.T = os.path.realpath(T)
-        self._build(self.T, self.desc['layout'])
-        if self.desc.get('cwd'):
-            self.oldcwd = os.getcwd()
-            os.chdir(self.T + self.desc['cwd'])
+        try:
+            self._build(self.T, self.desc['layout'])
+            if self.desc.get('cwd'):
+                self.oldcwd = os.getcwd()
+                os.chdir(self.T + self.desc['cwd'])
+        except BaseException:
+            self.__exit__()                       # never leave a layout behind
+            raise
         return self
 
     def _build(self, at, tree):
@@ -414,6 +418,7 @@ class Layout(object):
     def __exit__(self, *a):
         if self.oldcwd is not None:
             os.chdir(self.oldcwd)
+            self.oldcwd = None
         shutil.rmtree(self.T, ignore_errors=True)
         return False
 
